@@ -31,3 +31,10 @@ class Abandon(Exception):
         self.reason = reason
 
 
+
+
+class ConsumerSignal(Exception):
+    """A control signal raised by the body of a for-loop that consumes a generator (executed at the generator's yield):
+    it must unwind the generator's frames without being handled by them."""
+    def __init__(self, inner):
+        self.inner = inner
